@@ -948,13 +948,37 @@ namespace bloch::runtime {
             rc->isAbstract = clsNode->isAbstract;
             m_classTable[rc->name] = rc;
         }
-        // populate members
-        for (auto& clsNode : program.classes) {
+        // populate members, base classes first: a class copies its base's field layout and
+        // vtable, so the base must be complete whatever the order of declarations in the source
+        std::unordered_map<std::string, compiler::ClassDeclaration*> nodeByName;
+        for (auto& node : program.classes) {
+            if (node && node->typeParameters.empty())
+                nodeByName.emplace(node->name, node.get());
+        }
+        std::unordered_set<std::string> populated;
+        std::function<void(compiler::ClassDeclaration*)> populate =
+            [&](compiler::ClassDeclaration* clsNode) {
             if (!clsNode || !clsNode->typeParameters.empty())
-                continue;  // generic templates handled lazily
+                return;  // generic templates handled lazily
+            if (!populated.insert(clsNode->name).second)
+                return;
             RuntimeClass* rc = findClass(clsNode->name);
             if (!rc)
-                continue;
+                return;
+            {
+                std::string baseName;
+                if (clsNode->baseType) {
+                    if (auto named = dynamic_cast<NamedType*>(clsNode->baseType.get())) {
+                        if (named->typeArguments.empty() && !named->nameParts.empty())
+                            baseName = named->nameParts.back();
+                    }
+                } else if (!clsNode->baseName.empty()) {
+                    baseName = clsNode->baseName.back();
+                }
+                auto baseNode = nodeByName.find(baseName);
+                if (baseNode != nodeByName.end())
+                    populate(baseNode->second);
+            }
             // Wire base (non-generic class)
             if (clsNode->baseType) {
                 if (auto named = dynamic_cast<NamedType*>(clsNode->baseType.get())) {
@@ -1042,9 +1066,18 @@ namespace bloch::runtime {
                     rc->destructorDecl = dtor;
                 }
             }
+            // Further overloads appended to a bucket may have reallocated it after a vtable
+            // entry was taken: point this class's entries at the final storage.
+            for (auto& kv : rc->methods) {
+                for (auto& m : kv.second) {
+                    if (m.isVirtual || m.isOverride)
+                        rc->vtable[m.signature] = &m;
+                }
+            }
             if (rc->staticStorage.size() < rc->staticFields.size())
                 rc->staticStorage.resize(rc->staticFields.size());
-        }
+        };
+        for (auto& clsNode : program.classes) populate(clsNode.get());
     }
 
     RuntimeClass* RuntimeEvaluator::instantiateGeneric(
@@ -1164,6 +1197,12 @@ namespace bloch::runtime {
             } else if (auto dtor = dynamic_cast<DestructorDeclaration*>(member.get())) {
                 rc->hasDestructor = true;
                 rc->destructorDecl = dtor;
+            }
+        }
+        for (auto& kv : rc->methods) {
+            for (auto& m : kv.second) {
+                if (m.isVirtual || m.isOverride)
+                    rc->vtable[m.signature] = &m;  // buckets are final now (see buildClassTable)
             }
         }
         if (rc->staticStorage.size() < rc->staticFields.size())
